@@ -57,7 +57,7 @@ def _ns():
         'mappingproxy': types.MappingProxyType, 'frozenset': frozenset, 'set': set, 'bytearray': bytearray,
         'complex': complex, 'range': range, 'BareMapping': BareMapping,
     }
-    for n in ('EnumInt', 'EnumStr', 'EnumMixed', 'EnumStrMix', 'EnumIntMix', 'EnumNum', 'SubStr', 'SubInt', 'SubFloat', 'SubList', 'SubDict'):
+    for n in ('EnumInt', 'EnumStr', 'EnumMixed', 'EnumStrMix', 'EnumIntMix', 'EnumNum', 'EnumSwap', 'SubStr', 'SubInt', 'SubFloat', 'SubList', 'SubDict', 'NestedRender'):
         ns[n] = getattr(grammar, n)
     ns['dc'] = grammar.dc_class
     return ns
@@ -237,6 +237,7 @@ def kind(v) -> str:
 POOL: t.List[t.Any] = [
     None, True, False, 0, 1, -1, 7, 10 ** 20, 0.0, -0.0, 1.5, -2.0, 1.0, INF, NAN, 1e300, complex(1, 2),
     '', 'a', 'abc', 'x', '12', '1.5', 'true', '2023-09-05', '11:11:11', '2023-09-05T11:11:11', '1/3', 'a/b', '(',
+    '2023-13-01T00:00:00Z', '25:00Z', '~/d',
     b'', b'ab', bytearray(b'ab'),
     [], [1], [1, 2], ['a'], [1, 'a'], [[1]], [None], [True], [1.5], (), (1,), (1, 2), ('a', 1), (1, 'x'), [1, 2, 3],
     {}, {'a': 1}, {'a': 'b'}, {1: 2}, {'x': 1, 'y': 2}, {'a': [1]}, [{'a': 1}], {'k': 1}, {'k': 'a', 'j': None},
@@ -290,6 +291,17 @@ def mutate1(v, atoms=ATOMS, _top=True) -> t.Iterator[t.Any]:
                 yield a
 
 
+def _twin(x):
+    """A value == x of a different kind, if there is one (int <-> float, bool -> int)."""
+    if type(x) is bool:
+        return int(x)
+    if type(x) is int and abs(x) < 2 ** 53:
+        return float(x)
+    if type(x) is float and x == x and abs(x) < 2 ** 53 and x == int(x):
+        return int(x)
+    return None
+
+
 def inflate(v, n, _depth=0) -> t.Iterator[t.Any]:
     """The value made LARGE (about n elements): its outermost container repeated, the same with one wrong element at the far
     end, and the value with its first child made large.  Verdicts come from the reference model like for any other value; the
@@ -303,6 +315,12 @@ def inflate(v, n, _depth=0) -> t.Iterator[t.Any]:
         if _depth == 0:
             yield ty([fresh(x) for x in big[:-1]] + ['q#'])
             yield ty([fresh(x) for x in big[:-1]] + [None])
+            # an element that is == to the others but of another kind (1 / 1.0 / True), last and first: a memo keyed by the
+            # element's value would hand it the result of its twin
+            tw = _twin(lst[0])
+            if tw is not None:
+                yield ty([fresh(x) for x in big[:-1]] + [tw])
+                yield ty([tw] + [fresh(x) for x in big[1:]])
             for c in inflate(lst[0], n, 1):
                 yield ty([c] + [fresh(x) for x in lst[1:]])
     elif k == 'map' and len(v) > 0:
@@ -317,6 +335,9 @@ def inflate(v, n, _depth=0) -> t.Iterator[t.Any]:
         more = [m for m in more if m not in v]
         yield dict([(a, fresh(b)) for a, b in items] + [(m, fresh(x0)) for m in more])
         if _depth == 0:
+            tw = _twin(x0)
+            if tw is not None:
+                yield dict([(a, fresh(b)) for a, b in items] + [(m, fresh(x0)) for m in more[:-1]] + [(more[-1], tw)])
             yield dict([(a, fresh(b)) for a, b in items] + [(m, fresh(x0)) for m in more[:-1]] + [(more[-1], 'q#')])
             yield dict([(a, fresh(b)) for a, b in items] + [(m, fresh(x0)) for m in more[:-1]] + [(more[-1], None)])
             for c in inflate(x0, n, 1):
